@@ -66,6 +66,10 @@ class NixPath(TypedExpression):
         """Resolve the path literal to a filesystem path."""
         if self.path.startswith("<") and self.path.endswith(">"):
             raise ValueError("Angle-bracket paths require NIX_PATH resolution")
+        if self.path.startswith("~/"):
+            # Nix anchors `~/x` at the user's home directory, never at the
+            # importing file or the working directory.
+            return Path(self.path).expanduser()
         resolved = Path(self.path)
         if not resolved.is_absolute() and self.source_path is not None:
             resolved = self.source_path.parent / resolved
